@@ -81,7 +81,8 @@ type Spec struct {
 	MaxAlloc     int               `json:"maxalloc"`
 	Fuel         int64             `json:"fuel"`
 	TimeoutMs    int               `json:"timeout_ms"`
-	Backend      string            `json:"backend"` // "z3" (default), "bv-as-int"
+	Backend      string            `json:"backend"` // "z3" (default), "bv-as-int", "nia"
+	FinalTimeoutMs int             `json:"final_timeout_ms"` // per-query limit of the assertion portfolio (default: timeout_ms)
 	Stubs        map[string]string `json:"stubs"`
 	Workers      int               `json:"workers"`
 	StopAtFirst  bool              `json:"stop_at_first"`
@@ -147,7 +148,7 @@ type Machine struct {
 	Spec    *Spec
 	primary *Solver
 	extra   []*Solver // portfolio for final queries
-	extraLow []bool   // whether the back end gets the Int-lowered (pure bit-vector) form
+	extraForm []int   // form each back end gets: 0 mixed Int/BV as built, 1 Int-lowered (pure bit-vector), 2 integer-lifted (pure NIA)
 	epoch   int
 	journal []jent
 
@@ -180,6 +181,8 @@ type Machine struct {
 	seenFn         map[*ssa.Function]bool
 	apiFns         map[*ssa.Function]bool
 	lw             *Lowerer
+	lf             *Lifter
+	liftFailed     bool
 	lowerFail      int
 	panicDetail    string
 	allocElemSize  int64
@@ -296,18 +299,31 @@ func NewMachine(sh *Shared, id int) (*Machine, error) {
 		return nil, err
 	}
 	backs := []Backend{}
+	pto := to // primary (feasibility) limit
+	if sh.Spec.FinalTimeoutMs > 0 {
+		to = sh.Spec.FinalTimeoutMs
+	}
 	switch sh.Spec.Backend {
 	case "bv-as-int":
 		m.primary.Close()
-		m.primary, err = StartSolver(BackendCvc5Int(to))
+		m.primary, err = StartSolver(BackendCvc5Int(pto))
 		if err != nil {
 			return nil, err
 		}
 		backs = append(backs, BackendCvc5Int(to), BackendZ3(to), BackendZ3New(to))
-		m.extraLow = []bool{sh.Spec.ForceLower, true, true}
+		m.extraForm = []int{b2i(sh.Spec.ForceLower), 1, 1}
+	case "nia":
+		// non-linear integer arithmetic: everything lifted to Int (lift.go) and decided by z3's NIA solver
+		m.primary.Close()
+		m.primary, err = StartSolver(BackendZ3New(pto))
+		if err != nil {
+			return nil, err
+		}
+		backs = append(backs, BackendZ3New(to), BackendZ3(to), BackendCvc5Int(to))
+		m.extraForm = []int{2, 2, 0}
 	default:
 		backs = append(backs, BackendZ3(to), BackendCvc5Int(to), BackendZ3New(to))
-		m.extraLow = []bool{!sh.Spec.NoLower, false, !sh.Spec.NoLower}
+		m.extraForm = []int{b2i(!sh.Spec.NoLower), 0, b2i(!sh.Spec.NoLower)}
 	}
 	for _, b := range backs {
 		s, err := StartSolver(b)
@@ -321,6 +337,7 @@ func NewMachine(sh *Shared, id int) (*Machine, error) {
 		m.primary.Log = f
 	}
 	m.lw = NewLowerer(m.TT)
+	m.lf = NewLifter(m.TT)
 	m.stubs = sh.Spec.Stubs
 	m.intrinsic = map[string]intrinsicFn{}
 	registerIntrinsics(m)
@@ -693,10 +710,35 @@ func (m *Machine) CollectSolverStats() {
 
 // L lowers Int arithmetic to bit-vectors when every Int symbol is bounded (see lower.go).
 func (m *Machine) L(t *Term) *Term {
+	if m.Spec.Backend == "nia" {
+		return m.liftTerm(t)
+	}
 	if m.noLower() {
 		return t
 	}
 	return m.lowerTerm(t)
+}
+
+// liftTerm: when a term cannot be lifted the constraint is dropped (liftFailed is set): the primary solver
+// then over-approximates the path condition (never prunes a feasible path); decide() skips the lifted form.
+func (m *Machine) liftTerm(t *Term) *Term {
+	r, ok := m.lf.Lift(t)
+	if !ok {
+		m.lowerFail++
+		m.liftFailed = true
+		if os.Getenv("GOSMT_DEBUG") != "" {
+			fmt.Println("LIFT-FAILED:", m.lf.failed)
+		}
+		return m.TT.True
+	}
+	return r
+}
+
+func b2i(b bool) int {
+	if b {
+		return 1
+	}
+	return 0
 }
 
 func (m *Machine) lowerTerm(t *Term) *Term {
